@@ -6,7 +6,7 @@ from .c09 import parser
 LOGICS = ['PL', 'CTLS', 'CTL', 'LTL']
 VOCAB = ['A', 'E', 'X', 'F', 'G', 'U', 'R', 'not', 'and', 'or', '-->', '~', '&', '|', 'true',
          'false', 'p', 'q', 'r', '(', ')', '"a b"', 'Ap', 'andy', 'Uq', 'notp', 'EX', 'AG',
-         '"x\\"y"', '""', '_1']
+         '"x\\"y"', '""', '_1', '"and"', '"\\\\"', '"A G p"', '"a\\\\"', '"(p)"']
 JUNK = ['1', '$', '"', '\\', '-', '>', '->', '=>', '[', ']', 'é', '1p', '!', '.', ',', '\n', '\t',
         '0', "'q'", '<->', '^', '@', '#', ';', '{', '}', '\x00']
 
@@ -50,8 +50,8 @@ def check_parse(inp):
                        'raised %s: %s' % (type(e).__name__, str(e)[:120]))
     try:
         trees = syn.parse_all(logic, text)
-    except syn.TooMany:
-        trees = None
+    except (syn.TooMany, RecursionError):
+        trees = None                    # too many tokenisations / too deep for the recogniser
     if must_reject and trees:
         raise core.HarnessError('recogniser accepts a documented exclusion: %r' % (inp,))
     if outcome == 'rejected':
@@ -59,6 +59,10 @@ def check_parse(inp):
     # accepted: it must be a formula of exactly that logic, with a tree the grammar admits
     try:
         t = fm.structure(f)
+        fm.all_nodes(f)
+        fm.kind(logic, t)
+    except RecursionError:
+        return None                     # nesting too deep for the (recursive) harness walkers
     except Exception as e:
         return Failure('parse', inp, 'a formula', 'returned %r (%s)' % (f, e))
     for node in fm.all_nodes(f):
@@ -113,6 +117,13 @@ def tokens_of(t, logic, sym=False, extra=False):
 
 
 def join(tokens, tight=False):
+    if tight == 2:
+        # multi-line layout: newlines, tabs and runs of blanks between tokens
+        seps = ['\n', '\t', '  ', ' \n\t ', ' ', '\r\n', '\f']
+        out = ''
+        for i, tk in enumerate(tokens):
+            out += tk + seps[(i * 5 + len(tk)) % len(seps)]
+        return ('\n' if len(tokens) % 2 else '') + out
     if not tight:
         return ' '.join(tokens)
     out = ''
@@ -181,6 +192,22 @@ def run(ctx):
             ctx.violation(f)
             return
     st.sample({'logic': 'CTL', 'text': 'A F G q', 'must_reject': True})
+    # long and deeply nested inputs, multi-line errors, quoted-atom corners (explicit cases)
+    deep = []
+    for n in (60, 400):
+        deep += ['(' * n + 'p' + ')' * n, 'not ' * n + 'p', '(' * n + 'p' + ')' * (n - 1), '(' * (n - 1) + 'p' + ')' * n,
+                 ' and '.join(['p'] * n), '(' + ' or '.join(['q'] * n) + ') and', 'p\n' * n, '~' * n + 'q' + '\n$']
+    deep += ['p and\n\tq $', 'p\n\n and', '\n\n', '\t', 'p and "a\nb"', '"a\\"', '""', '"" and "\\\\"', '"', '"p', 'p"',
+             '\np\n', 'A\nG\np', 'A G p\n)', 'p and q\n\n\n or r', '"a" "b"', '("a")', 'not"a"', '"a"and"b"']
+    for text in deep:
+        for logic in LOGICS:
+            inp = {'logic': logic, 'text': text}
+            st.random_case(inp, True)
+            st.bump('explicit long / multi-line / quoting cases')
+            f = check_parse(inp)
+            if f is not None:
+                ctx.violation(f)
+                return
 
     f = core.run_random(ctx, random_shard, 6000, 60000)
     if f is not None:
@@ -218,7 +245,7 @@ def random_shard(st, shard, nshards, payload):
     @hs.composite
     def cases(draw):
         cls = draw(hs.sampled_from(['valid', 'mutated', 'mutated', 'mutated', 'soup']))
-        tight = draw(hs.booleans())
+        tight = draw(hs.sampled_from([False, True, 2]))
         if cls == 'soup':
             n = draw(hs.integers(0, 8))
             toks = [draw(hs.sampled_from(VOCAB + JUNK)) for _ in range(n)]
